@@ -41,6 +41,7 @@ pub fn atoms() -> Vec<(String, Val)> {
     add("str:NUL", Val::Str(vec![0]));
     add("str:ctl-then-digit", Val::Str(vec![1, b'8', 0o33, b'7']));
     add("str:ctl-then-8-9", Val::Str(vec![7, b'9', 0o10, b'8', b'\r', b'9', 0o77, b'8']));
+    add("str:low-nibble-0", Val::Str(vec![0x90, 0x1f, 0xa0]));
     add("str:z", Val::str("z"));
     add("str:delims", Val::str("%<>[]{}/ x"));
     add("name:Name", Val::name("Name"));
@@ -314,9 +315,9 @@ pub fn run(tier: Tier, _seed: u64, tally: &mut Tally) -> CheckMeta {
     let bound = if tier.thorough() { 2 } else { 1 };
     explore("c03.object", Limits::new(bound).wall(if tier.thorough() { 3000 } else { 600 }), tally, object_case);
     explore("c03.stream", Limits::new(bound + 1), tally, stream_case);
-    if tier.thorough() {
-        // atoms alone with up to 3 deviations
-        explore("c03.atoms3", Limits::new(3).wall(1200), tally, |ch, t| {
+    {
+        // atoms alone with up to 2 (thorough: 3) deviations
+        explore("c03.atoms3", Limits::new(if tier.thorough() { 3 } else { 2 }).wall(1200), tally, |ch, t| {
             let cat = catalogue();
             let n_atoms = atoms().len();
             let names: &'static [&'static str] = &cat.names[..n_atoms];
@@ -346,7 +347,7 @@ pub fn run(tier: Tier, _seed: u64, tally: &mut Tally) -> CheckMeta {
         prop: "C03",
         level: "model_checking",
         rule: format!(
-            "bounded choice-tree search over the producer's spelling choice points: {} values (atoms of every kind, all ordered kind pairs in arrays and dictionaries, nesting 3 and 20) x 5 parse contexts (parse alone / with trailing white-space / sequence of three through parse_with_lexer / parse_indirect_object bare / inside a dictionary) as free dimensions, <= {} spelling deviations (separator kinds incl. comments, number forms, string forms/escapes/octal/continuations, hex forms, #xx in names); streams: entry point x data x dictionary as free dimensions, <= {} deviations incl. EOL kinds around the data. Non-trivial = at least one deviation; distinct by hash of the input bytes.",
+            "bounded choice-tree search over the producer's spelling choice points: {} values (atoms of every kind, all ordered kind pairs in arrays and dictionaries, nesting 3 and 20) x 5 parse contexts (parse alone / with trailing white-space / sequence of three through parse_with_lexer / parse_indirect_object bare / inside a dictionary) as free dimensions, <= {} spelling deviations (separator kinds incl. comments, number forms, string forms/escapes/octal/continuations, hex forms, #xx in names); streams: entry point x data x dictionary as free dimensions, <= {} deviations incl. EOL kinds around the data. Atoms alone with <= 2 (thorough 3) deviations, so that two-step spellings (hexadecimal string with an odd number of digits and white-space inside) are in the quick tier. Non-trivial = at least one deviation; distinct by hash of the input bytes.",
             catalogue().vals.len(),
             bound,
             bound + 1
